@@ -45,8 +45,10 @@ def build():
             "path": "lean/ (Lean 4 library Verif: models, theorems, drivers), harness/ (Python correspondence + oracle), check",
             "serves_properties": [c["property_id"] for c in checks],
             "kind_free_text": "machine-checked proof in Lean 4 over hand-written executable models; the models are tied to "
-                              "/repo by a differential correspondence run through line-protocol drivers and by tables "
-                              "regenerated from the live Python objects on every run",
+                              "/repo by a differential correspondence run through line-protocol drivers, by tables "
+                              "regenerated from the live Python objects on every run, and — for the functions listed "
+                              "in TRANSLATOR.md — by Lean definitions regenerated from the Python source text on every "
+                              "run (harness/common/py2lean.py) and proved equal to the model functions",
         }],
         "checks": checks,
         "notes": "See DESIGN.md. Exit codes: 0 held, 1 VIOLATION, 2 infrastructure error/time-out. "
